@@ -8,7 +8,7 @@
    No proofs in this file. *)
 From Coq Require Import String List NArith ZArith Bool.
 From J5V.lib Require Import Text.
-From J5V.gen Require UnicodeGen.
+From J5V.gen Require UnicodeGen TokensGen.
 Import ListNotations.
 Local Open Scope bool_scope.
 
@@ -46,6 +46,7 @@ Definition tt_name (t : ttype) : string :=
   | AnyLiteral => "AnyLiteral"
   end%string.
 
+
 (* the `operators` map: rune -> operator token (sorted by rune) *)
 Definition model_operators : list (N * ttype) :=
   [(33, BANG); (43, PLUS); (44, COMMA); (46, DOT); (58, COLON); (61, ASSIGN); (63, QUESTION);
@@ -56,6 +57,49 @@ Fixpoint assoc_N {A} (l : list (N * A)) (c : N) : option A :=
   | (k, v) :: r => if N.eqb k c then Some v else assoc_N r c
   end.
 Definition op_of (c : N) : option ttype := assoc_N model_operators c.
+
+(* TokenType.String(): the `tokens` array as the translator reads it from token.go *)
+Definition tt_text (t : ttype) : list N :=
+  match assoc_N TokensGen.token_text (tt_code t) with Some b => b | None => [] end.
+(* operator_beg < t < operator_end *)
+Definition is_operator (t : ttype) : bool := N.ltb 15 (tt_code t) && N.ltb (tt_code t) 27.
+
+Definition ttype_of_code (c : N) : ttype :=
+  match filter (fun t => N.eqb (tt_code t) c) all_tt with t :: _ => t | [] => INVALID end.
+
+(* ---- message texts --------------------------------------------------------------- *)
+(* the texts and formats of the diagnostics are the string literals of the Go functions, read by
+   the translator (TokensGen.func_strings: literals passed to errf / Sprintf / errors.New /
+   strings.Join, in source order; for Token.String every literal) *)
+Fixpoint assoc_s {A} (l : list (string * A)) (k : string) : option A :=
+  match l with
+  | [] => None
+  | (k0, v) :: r => if String.eqb k0 k then Some v else assoc_s r k
+  end.
+Definition slit (fn : string) (i : nat) : list N :=
+  nth i (match assoc_s TokensGen.func_strings fn with Some l => l | None => [] end) [].
+(* fmt.Sprintf restricted to the verbs %s %c %d, the arguments already rendered as bytes *)
+Fixpoint sprintf (f : list N) (args : list (list N)) : list N :=
+  match f with
+  | [] => []
+  | c :: t =>
+    if N.eqb c 37 then
+      match t with
+      | v :: r => if N.eqb v 115 || N.eqb v 99 || N.eqb v 100
+                  then (match args with a :: _ => a | [] => [] end) ++ sprintf r (tl args)
+                  else c :: sprintf t args
+      | [] => [c]
+      end
+    else c :: sprintf t args
+  end.
+(* strings.Join of byte strings *)
+Fixpoint join_bytes (sep : list N) (ls : list (list N)) : list N :=
+  match ls with
+  | [] => []
+  | [l] => l
+  | l :: r => l ++ sep ++ join_bytes sep r
+  end.
+
 
 Definition is_literal (t : ttype) : bool :=
   match t with
@@ -71,8 +115,8 @@ Definition pos0 : pos := (0, 0)%Z.
 
 Record token := mkTok { ty : ttype; lit : list N; tstart : pos; tend : pos }.
 
-(* a diagnostic: only its range is modelled (messages are not observables) *)
-Record diag := mkDiag { dstart : pos; dend : pos }.
+(* a diagnostic: its range and its message (errpos.Err.Err.Error(), as bytes) *)
+Record diag := mkDiag { dstart : pos; dend : pos; dmsg : list N }.
 
 (* ---- unicode predicates (rune = N; EOF is None and satisfies none of them) -- *)
 Definition is_space (c : N) : bool := in_ranges UnicodeGen.space_ranges c.
@@ -98,7 +142,14 @@ Definition next (s : lstate) : lstate :=
 Definition get_pos (s : lstate) : pos := (line s, col s).
 Definition peek (s : lstate) : option N := hd_error (rest s).
 Definition ch_list (s : lstate) : list N := match ch s with Some c => [c] | None => [] end.
-Definition errf (s : lstate) : diag := mkDiag (get_pos s) (get_pos s).
+Definition errf (msg : list N) (s : lstate) : diag := mkDiag (get_pos s) (get_pos s) msg.
+(* the lexer's messages *)
+Definition msg_eof : list N := slit "lexer.go:unexpectedEOF" 0.
+Definition msg_eol_regex : list N := slit "lexer.go:lexRegex" 0.
+Definition msg_eol_string : list N := slit "lexer.go:lexString" 0.
+Definition msg_escape : list N := slit "lexer.go:lexEscape" 0.
+Definition msg_second_dot : list N := slit "lexer.go:lexNumber" 0.
+Definition msg_char (c : N) : list N := sprintf (slit "lexer.go:NextToken" 0) [utf8_encode [c]].
 
 (* skipWhitespace: advance while the next rune is a space other than '\n' *)
 Fixpoint skip_whitespace (fuel : nat) (s : lstate) : option lstate :=
@@ -159,9 +210,9 @@ Fixpoint regex_loop (fuel : nat) (s : lstate) (acc : list N) : lres (list N) :=
   | S f =>
     let s1 := next s in
     match ch s1 with
-    | None => RErr (errf s1) s1                                     (* unexpected EOF *)
+    | None => RErr (errf msg_eof s1) s1
     | Some c =>
-      if N.eqb c 10 then RErr (errf s1) s1                          (* unexpected EOL in regex *)
+      if N.eqb c 10 then RErr (errf msg_eol_regex s1) s1
       else if N.eqb c 47 then
         if opt_eq (peek s1) 47 then regex_loop f (next s1) (acc ++ [47%N])
         else ROk acc s1
@@ -183,13 +234,13 @@ Fixpoint string_loop (fuel : nat) (quote : N) (s : lstate) (acc : list N) : lres
   | S f =>
     let s1 := next s in
     match ch s1 with
-    | None => RErr (errf s1) s1                                     (* unexpected EOF *)
+    | None => RErr (errf msg_eof s1) s1
     | Some c =>
       if N.eqb c quote then ROk acc s1
-      else if N.eqb c 10 then RErr (errf s1) s1                     (* unexpected EOL in string *)
+      else if N.eqb c 10 then RErr (errf msg_eol_string s1) s1
       else if N.eqb c 92 then
         match lex_escape quote s1 with
-        | None => RErr (errf s1) s1                                 (* invalid escape *)
+        | None => RErr (errf msg_escape s1) s1
         | Some s2 => string_loop f quote s2 (acc ++ ch_list s2)
         end
       else string_loop f quote s1 (acc ++ [c])
@@ -223,7 +274,7 @@ Fixpoint number_loop (fuel : nat) (s : lstate) (seen_dot : bool) (acc : list N) 
     | Some v =>
       if is_digit v then let s' := next s in number_loop f s' seen_dot (acc ++ ch_list s')
       else if N.eqb v 46 then
-        if seen_dot then RErr (errf s) s
+        if seen_dot then RErr (errf msg_second_dot s) s
         else number_loop f (next s) true (acc ++ [46%N])
       else ROk (if seen_dot then DECIMAL else INT, acc) s
     | None => ROk (if seen_dot then DECIMAL else INT, acc) s
@@ -281,7 +332,7 @@ Fixpoint next_token_fuel (fuel : nat) (s0 : lstate) : lexres * lstate :=
           | RErr d s' => (LErr d, s')
           | RFuel => (LFuel, s)
           end
-        else (LErr (errf s), s)                                    (* unexpected character *)
+        else (LErr (errf (msg_char c) s), s)
       end
     end
   end.
